@@ -402,7 +402,7 @@ impl Property for C12 {
         true
     }
     fn cases(&self, cfg: &Cfg) -> u64 {
-        cfg.tier.pick(1_200, 120_000)
+        cfg.tier.pick(4_000, 120_000)
     }
     fn run_case(&self, cfg: &Cfg, i: u64, acc: &mut Acc) {
         let mut r = Rng::keyed(&[cfg.seed, 12, i]);
